@@ -123,4 +123,31 @@ theorem felt_key_alias_before_616d4a4 (A : HashAlg H) (cfg : Cfg) (hck : cfg.che
     verify2Felt A cfg n r (2 ^ n + k) P = verify2Felt A cfg n r k P := by
   simp [verifyLFelt, verify2Felt, hck, pathOfNat_add_pow n n (Nat.le_refl n) k]
 
+/-- before 0a848cd (`ck = false`: `VerifyRangeProof` did not refuse keys of `2^n` or more): the statement of
+`Props.range_verify_sound` held only under the side condition that `first` and the listed keys are below `2^n` -/
+theorem range_verify_sound_partial_before_0a848cd (A : HashAlg H) (hI : Ideal A) (rc : RCfg) (hch : rc.checkHash = true)
+    (hev : rc.earlyValue = false) (hlh : rc.leafHash = true) (hul : rc.unsetLeaf = true)
+    (t : Tree H) (n : Nat) (hwf : WF t n) (hnz : t.NZ A) (hn : 0 < n) (first : Nat) (kvs : List (Nat × H))
+    (P : PSet H) (more : Bool) (hb : first < 2 ^ n ∧ ∀ kv ∈ kvs, kv.1 < 2 ^ n)
+    (h : verifyRange A rc false n (t.hash A) first kvs (some P) = .ok more) :
+    (∀ k, k < 2 ^ n → first ≤ k → (∀ l, kvs.getLast? = some l → k ≤ l.1) →
+      t.get A (pathOfNat n k) = (lastValF kvs k).getD A.zero) ∧
+    (more = true ↔ ∃ l, kvs.getLast? = some l ∧ GtIn t n (pathOfNat n l.1)) :=
+  (verifyRange_sound hI rc hch hev hlh hul false t n hwf hnz hn first kvs P more (Or.inr hb) h).2
+
+/-- before 0a848cd, the defect (then known findings `trie2:range:*key-plus-2^251*`, `…keys-wrap-2^251…`): without the check the
+single-element claim about the felt `2^n + k` is verified exactly like the claim about `k`; concretely, in the
+example trie the honest proof of 110 ↦ 8 is accepted for the felt `2^3 + 6`, a key no trie of height 3 holds,
+and the variant with the check refuses it.  (On the real code the general case also accepts a range with a
+gap, `first = 5, keys = [5, 3 + 2^251]` over {3, 5, 9, 12}, and panics for `first = k, keys = [k + 2^251]`; there
+the paths are not increasing, which is outside the model's `fill`.) -/
+theorem range_felt_key_alias_before_0a848cd (A : HashAlg H) (rc : RCfg) (n : Nat) (root : H) (k : Nat) (v : H) (P : PSet H) :
+    verifyRange A rc false n root (2 ^ n + k) [(2 ^ n + k, v)] (some P) =
+      verifyRange A rc false n root k [(k, v)] (some P) ∧
+    verifyRange freeAlg RCfg.strict false 3 (exTree.hash freeAlg) (2 ^ 3 + 6) [(2 ^ 3 + 6, .felt 8)]
+      (some (Trie.prove freeAlg false false (some exTree) [true, true, false])) = .ok true ∧
+    verifyRange freeAlg RCfg.strict true 3 (exTree.hash freeAlg) (2 ^ 3 + 6) [(2 ^ 3 + 6, .felt 8)]
+      (some (Trie.prove freeAlg false false (some exTree) [true, true, false])) = .err :=
+  ⟨verifyRange_alias rc n root k v P, by decide, by decide⟩
+
 end Juno.C10.Regress
